@@ -35,9 +35,20 @@ def outcome(st, v):
     return "ok"
 
 
+def actual(facts, key):
+    """Role names (vlib/roles.py) are accepted wherever a function key is."""
+    if key in facts.fns:
+        return key
+    from . import roles
+
+    if key in roles.ROLES:
+        return roles.key(facts, key)
+    return key
+
+
 def run(facts, key, fields=None):
     it = emit.Interp(facts)
-    return it.run_fn(key, fields=fields)
+    return it.run_fn(actual(facts, key), fields=fields)
 
 
 def table(facts, key, fields=None):
@@ -77,7 +88,7 @@ def all_tables(facts):
     """name -> list of rows (without the state objects), for freezing / comparison."""
     out = {}
     for key in COMPILE_IMPLS + HELPERS:
-        if key not in facts.fns:
+        if actual(facts, key) not in facts.fns:
             raise F.AnchorMissing("function %s" % key)
         out[key] = table(facts, key)
     for m in MANAGERS:
